@@ -153,10 +153,10 @@ class TrigTime:
         def user_task_create_factory(ast_ctx):
             """Return wrapper to call to astFunction with the ast context."""
 
-            async def user_task_create(func, *args, **kwargs):
+            async def user_task_create(func, /, *args, **kwargs):
                 """Implement task.create()."""
 
-                async def func_call(func, func_name, new_ast_ctx, *args, **kwargs):
+                async def func_call(func, func_name, new_ast_ctx, /, *args, **kwargs):
                     """Call user function inside task.create()."""
                     try:
                         return await new_ast_ctx.call_func(func, func_name, *args, **kwargs)
@@ -190,7 +190,7 @@ class TrigTime:
         }
         Function.register_ast(ast_funcs)
 
-        async def user_task_add_done_callback(task, callback, *args, **kwargs):
+        async def user_task_add_done_callback(task, callback, /, *args, **kwargs):
             """Implement task.add_done_callback()."""
             # the callback runs on the evaluator of the task that finished; the evaluator stored in the
             # function variable loaded the whole file and would be shared by concurrent callbacks
@@ -609,7 +609,7 @@ class TrigTime:
         return ret
 
     @classmethod
-    async def user_task_executor(cls, func, *args, **kwargs):
+    async def user_task_executor(cls, func, /, *args, **kwargs):
         """Implement task.executor()."""
         if asyncio.iscoroutinefunction(func) or not callable(func):
             raise TypeError(f"function {func} is not callable by task.executor")
@@ -1439,7 +1439,7 @@ class TrigInfo:
 
         kill_me = bool(self.task_unique_kwargs and self.task_unique_kwargs.get("kill_me"))
 
-        async def do_func_call(func, ast_ctx, task_unique, task_unique_func, hass_context, **kwargs):
+        async def do_func_call(func, ast_ctx, task_unique, task_unique_func, hass_context, /, **kwargs):
             # Store HASS Context for this Task
             Function.store_hass_context(hass_context)
 
